@@ -20,6 +20,7 @@ func init() {
 			{ID: "R-C01-3", Doc: "shape of the signature guard: non-empty key set, all keys, errors fail, success only after loop exhaustion", Min: 4, Run: ruleC01_3},
 			{ID: "R-C01-4", Doc: "signature is bound to the enforced bytes, per Metadata implementation; Envelope field writers", Min: 10, Run: ruleC01_4},
 			{ID: "R-C01-5", Doc: "strict payload decoding", Min: 3, Run: ruleC01_5},
+			{ID: "R-C04-6", Doc: "the verifier is built afresh from the supplied key's own material (shared with C04)", Min: 3, Run: ruleC04_6},
 			a1Rule(30, "in_toto.InTotoVerify", "in_toto.InTotoVerifyWithDirectory", "in_toto.VerifyLayoutSignatures",
 				"(*in_toto.Metablock).VerifySignature", "(*in_toto.Envelope).VerifySignature", "in_toto.loadEnvelope", "in_toto.loadPayload",
 				"(*in_toto.Metablock).GetSignableRepresentation", "in_toto.getSignerVerifierFromKey"),
